@@ -25,6 +25,7 @@ var (
 
 	// Lifecycle errors.
 	ErrProviderNil      = errors.New("service provider cannot be nil")
+	ErrCollectionNil    = errors.New("service collection cannot be nil")
 	ErrProviderDisposed = errors.New("service provider has been disposed")
 	ErrScopeDisposed    = errors.New("scope has been disposed")
 
